@@ -24,26 +24,33 @@ Proof.
 Qed.
 
 Lemma pair_lower_none_ge a b :
-  (a = 195 -> 159 <= b) -> (a = 208 -> 176 <= b) -> (a = 206 -> 170 <= b) -> pair_lower a b = None.
+  (a = 195 -> 159 <= b) -> (a = 208 -> 176 <= b) -> (a = 206 -> 170 <= b) ->
+  (a = 199 -> b = 134 \/ b = 137 \/ b = 140 \/ 179 <= b) -> pair_lower a b = None.
 Proof.
-  intros H1 H2 H3. unfold pair_lower.
+  intros H1 H2 H3 H4. unfold pair_lower.
   destruct (a =? 195) eqn:E1.
   - destruct ((128 <=? b) && (b <=? 158) && negb (b =? 151)) eqn:E; [lia|reflexivity].
   - destruct (a =? 208) eqn:E2.
     + destruct ((128 <=? b) && (b <=? 143)) eqn:Ea; [lia|].
       destruct ((144 <=? b) && (b <=? 159)) eqn:Eb; [lia|].
       destruct ((160 <=? b) && (b <=? 175)) eqn:Ec; [lia|reflexivity].
-    + destruct (a =? 206) eqn:E3; [|reflexivity].
-      destruct ((145 <=? b) && (b <=? 159)) eqn:Ea; [lia|].
-      destruct ((160 <=? b) && (b <=? 161)) eqn:Eb; [lia|].
-      destruct ((164 <=? b) && (b <=? 169)) eqn:Ec; [lia|reflexivity].
+    + destruct (a =? 206) eqn:E3.
+      * destruct ((145 <=? b) && (b <=? 159)) eqn:Ea; [lia|].
+        destruct ((160 <=? b) && (b <=? 161)) eqn:Eb; [lia|].
+        destruct ((164 <=? b) && (b <=? 169)) eqn:Ec; [lia|reflexivity].
+      * destruct (a =? 199) eqn:E4; [|reflexivity].
+        destruct ((b =? 132) || (b =? 133)) eqn:Fa; [lia|].
+        destruct ((b =? 135) || (b =? 136)) eqn:Fb; [lia|].
+        destruct ((b =? 138) || (b =? 139)) eqn:Fc; [lia|].
+        destruct ((b =? 177) || (b =? 178)) eqn:Fd; [lia|reflexivity].
 Qed.
 
 (* the shapes an upper-case pair can map to *)
 Lemma pair_lower_cases a b x y :
   pair_lower a b = Some (x, y) ->
   (x = 195 /\ 160 <= y <= 190) \/ (x = 209 /\ 128 <= y <= 159) \/ (x = 208 /\ 176 <= y <= 191) \/
-  (x = 206 /\ 177 <= y <= 191) \/ (x = 207 /\ 128 <= y <= 137).
+  (x = 206 /\ 177 <= y <= 191) \/ (x = 207 /\ 128 <= y <= 137) \/
+  (x = 199 /\ (y = 134 \/ y = 137 \/ y = 140 \/ y = 179)).
 Proof.
   unfold pair_lower.
   destruct (a =? 195) eqn:E1.
@@ -53,10 +60,15 @@ Proof.
     + destruct ((128 <=? b) && (b <=? 143)) eqn:Ea; [intros H; injection H as <- <-; lia|].
       destruct ((144 <=? b) && (b <=? 159)) eqn:Eb; [intros H; injection H as <- <-; lia|].
       destruct ((160 <=? b) && (b <=? 175)) eqn:Ec; [intros H; injection H as <- <-; lia|discriminate].
-    + destruct (a =? 206) eqn:E3; [|discriminate].
-      destruct ((145 <=? b) && (b <=? 159)) eqn:Ea; [intros H; injection H as <- <-; lia|].
-      destruct ((160 <=? b) && (b <=? 161)) eqn:Eb; [intros H; injection H as <- <-; lia|].
-      destruct ((164 <=? b) && (b <=? 169)) eqn:Ec; [intros H; injection H as <- <-; lia|discriminate].
+    + destruct (a =? 206) eqn:E3.
+      * destruct ((145 <=? b) && (b <=? 159)) eqn:Ea; [intros H; injection H as <- <-; lia|].
+        destruct ((160 <=? b) && (b <=? 161)) eqn:Eb; [intros H; injection H as <- <-; lia|].
+        destruct ((164 <=? b) && (b <=? 169)) eqn:Ec; [intros H; injection H as <- <-; lia|discriminate].
+      * destruct (a =? 199) eqn:E4; [|discriminate].
+        destruct ((b =? 132) || (b =? 133)) eqn:Fa; [intros H; injection H as <- <-; lia|].
+        destruct ((b =? 135) || (b =? 136)) eqn:Fb; [intros H; injection H as <- <-; lia|].
+        destruct ((b =? 138) || (b =? 139)) eqn:Fc; [intros H; injection H as <- <-; lia|].
+        destruct ((b =? 177) || (b =? 178)) eqn:Fd; [intros H; injection H as <- <-; lia|discriminate].
 Qed.
 
 (* an upper-case pair maps to a pair that is not upper-case, whose first byte is >= 195 and
@@ -71,7 +83,7 @@ Qed.
 
 (* only the three lead bytes start an upper-case pair, and its second byte is in 128..175 *)
 Lemma pair_lower_some_in a b p :
-  pair_lower a b = Some p -> (a = 195 \/ a = 208 \/ a = 206) /\ 128 <= b <= 175.
+  pair_lower a b = Some p -> (a = 195 \/ a = 208 \/ a = 206 \/ a = 199) /\ 128 <= b <= 178.
 Proof.
   unfold pair_lower.
   destruct (a =? 195) eqn:E1.
@@ -80,18 +92,23 @@ Proof.
     + destruct ((128 <=? b) && (b <=? 143)) eqn:Ea; [intros _; lia|].
       destruct ((144 <=? b) && (b <=? 159)) eqn:Eb; [intros _; lia|].
       destruct ((160 <=? b) && (b <=? 175)) eqn:Ec; [intros _; lia|discriminate].
-    + destruct (a =? 206) eqn:E3; [|discriminate].
-      destruct ((145 <=? b) && (b <=? 159)) eqn:Ea; [intros _; lia|].
-      destruct ((160 <=? b) && (b <=? 161)) eqn:Eb; [intros _; lia|].
-      destruct ((164 <=? b) && (b <=? 169)) eqn:Ec; [intros _; lia|discriminate].
+    + destruct (a =? 206) eqn:E3.
+      * destruct ((145 <=? b) && (b <=? 159)) eqn:Ea; [intros _; lia|].
+        destruct ((160 <=? b) && (b <=? 161)) eqn:Eb; [intros _; lia|].
+        destruct ((164 <=? b) && (b <=? 169)) eqn:Ec; [intros _; lia|discriminate].
+      * destruct (a =? 199) eqn:E4; [|discriminate].
+        destruct ((b =? 132) || (b =? 133)) eqn:Fa; [intros _; lia|].
+        destruct ((b =? 135) || (b =? 136)) eqn:Fb; [intros _; lia|].
+        destruct ((b =? 138) || (b =? 139)) eqn:Fc; [intros _; lia|].
+        destruct ((b =? 177) || (b =? 178)) eqn:Fd; [intros _; lia|discriminate].
 Qed.
 
-Lemma pair_lower_none_first a b : a <> 195 -> a <> 208 -> a <> 206 -> pair_lower a b = None.
+Lemma pair_lower_none_first a b : a <> 195 -> a <> 208 -> a <> 206 -> a <> 199 -> pair_lower a b = None.
 Proof.
   intros. destruct (pair_lower a b) eqn:E; [|reflexivity].
   apply pair_lower_some_in in E. lia.
 Qed.
-Lemma pair_lower_none_second a b : (b < 128 \/ 175 < b) -> pair_lower a b = None.
+Lemma pair_lower_none_second a b : (b < 128 \/ 178 < b) -> pair_lower a b = None.
 Proof.
   intros. destruct (pair_lower a b) eqn:E; [|reflexivity].
   apply pair_lower_some_in in E. lia.
